@@ -29,7 +29,8 @@ claim("C14", "exploration",
       "runtime contracts on diff_ulp/ulp + independent lattice-ordinal oracle and algebraic laws; float16 neighbours exhaustive",
       "The real diff_ulp/diff_log2ulp/ulp run under recording contracts: every finite float16 against its k-th neighbours (k up to 64, across zero "
       "and binade edges), ulp() identities on all 65536 float16 patterns, hostile/random pairs and monotone triples in float16/32/64, complex and "
-      "array forms, and a flush-mode consistency law (the package's own collapse map, read off its distance to zero, must explain every flushed distance).",
+      "array forms (the complex law also in flush mode), a flush-mode consistency law (the package's own collapse map, read off its distance to zero, must explain every flushed "
+      "distance), and the module-level flush switch followed at call time.",
       "Trusted: numpy.nextafter and bit views define the lattice; vf.exact ordinals (self-tested).",
       "DESIGN.md section 3 C14")
 
@@ -38,13 +39,14 @@ claim("C15", "exploration",
       "Directed multiprecision values (ties +- 2^-k at precisions p+1..4p, the overflow threshold, half the smallest subnormal, arbitrary exponents) are "
       "converted by the real mpf2float under a contract comparing with RN of the exact rational; the contract also fires on the internal call from "
       "vectorize_with_mpmath, which is driven with identity/negate/abs/double/square/sqrt/exp on hostile inputs (35% subnormal) for flush_subnormals in "
-      "{unspecified, False, True} x five extra-precision settings x three call forms.",
+      "{unspecified, False, True} x eight extra-precision settings (three fractional) x five call forms (scalar, 1-d array, .call, Fortran-ordered and axes-permuted N-d arrays); "
+      "x*x - 1 on inputs whose square fits the requested working precision exactly; exp/log/arctan/arcsinh/sqrt at default settings on every normal float16.",
       "Trusted: mpmath's (sign, man, exp) is exact; mpmath +,-,*,sqrt correctly rounded; sqrt/exp references certified at two precisions (uncertified cases counted, skipped).",
       "DESIGN.md section 3 C15")
 
 claim("C16", "exploration",
       "differential execution of the real polynomial routines over exact Fractions against the direct definition",
-      "All evaluation schemes (both copies of fast_polynomial x 5 schemes x reverse, horner, Laurent in all four exponent regimes, ratio form), and "
+      "All evaluation schemes (both copies of fast_polynomial x 5 schemes x reverse, horner, Laurent in all four exponent regimes, ratio form incl. zero ratios), and "
       "multiply/add/derivative/taylorat/divmod are run on random rational polynomials of every degree 0..40 and 499..520 (scheme switch) with zero "
       "patterns; results must equal the definition / coefficient identities exactly (P = Q*D + R, deg R < deg D).",
       "Trusted: Python Fraction arithmetic.",
@@ -86,7 +88,9 @@ claim("C07", "exploration",
       "'like' expressions, ~40 operation kinds, lists; with and without the alternative constant context; and tracing + rewriting of all shipped "
       "algorithms) passes through a recording contract that checks soundness (the returned object has the candidate's structural key: operand identities, "
       "exact bit pattern and Python type of constant values) and completeness (a repeated key returns the first object), plus uniqueness of intkeys. One "
-      "root per end-to-end history is printed with the Python target, executed and compared bit for bit with an evaluation of the intended DAG.",
+      "root per end-to-end history is printed with the Python target, executed and compared bit for bit with an evaluation of the intended DAG. A request-level monitor "
+      "(same name / value + differently sized or signed requested type -> different object) covers what a key read off the result cannot see; one context is grown past 2^17 "
+      "(thorough 2^21) expressions.",
       "Trusted: CPython object identity and struct/numpy byte views. NaN constants: only soundness is demanded (NaN != NaN). A RuntimeError 'attempt to "
       "re-register equivalent expression' is a loud refusal, counted, not a violation.",
       "DESIGN.md section 3 C07")
@@ -97,7 +101,8 @@ claim("C09", "exploration",
       "apmath->lax generations) is produced by a fresh interpreter (PYTHONHASHSEED=0, sorted order); every other history - other/random hash seeds, "
       "reversed/shuffled orders, 2-3 repetitions in one process, pollution prefixes (other targets, alternative context, temporary symbols, warn_once, "
       "failing traces, deep_first=False rewrites, apmath first, expression churn), interleaved pollution - runs in its own subprocess and must reproduce "
-      "the table byte for byte; a mismatch is reported with a unified diff of the two texts.",
+      "the table byte for byte; a mismatch is reported with a unified diff of the two texts. User-defined functions (temporary symbols, repeated names, named-constant comparisons, "
+      "two same-named provider classes) are among the keys; a second kind of history prints ONE context for two targets in turn (known finding: local names renamed only).",
       "Trusted: sha256. Refused generations (NotImplementedError) are compared as refusals. results/* in the repository are not the reference (generated by older versions).",
       "DESIGN.md section 3 C09")
 
@@ -106,7 +111,8 @@ claim("C03", "exploration",
       "The 14 complex graphs (and real asin/asinh/square), expanded by the package's own definitions through the repository's modifier_base, are evaluated "
       "on z, conj z, -z and i*z in one process and compared as bit patterns (NaN=NaN): conjugation symmetry (Im z != 0), oddness (inputs on the function's "
       "own cut excluded), evenness of square, asinh=-i*asin(iz), atan=-i*atanh(iz), acosh=+-i*acos, Im acos=-Im asin. Inputs: random bit patterns, the full "
-      "lattice of ~60x60 special values per precision, structured sets (axes, |x|=|y|, unit circle, x=-y^2/2).",
+      "lattice of ~60x60 special values per precision, structured sets (axes, |x|=|y|, unit circle, x=-y^2/2); oddness of the real algorithms also under 7 settings of the "
+      "documented tuning parameters.",
       "Trusted: the independent vectorised interpreter vf.graph.interp_np (cross-validated against emitted NumPy source in C05). Relies on NumPy's real "
       "natives being odd/even bitwise. Known finding KF-C03-odd-zero (sign of zero outputs at zero input components).",
       "DESIGN.md section 3 C03")
@@ -116,7 +122,9 @@ claim("C02", "exploration",
       "Real absolute/acos/acosh/asin/asinh/square (+ hypot), expanded by the package's own definitions, are evaluated on every non-NaN float32 (thorough; every "
       "2053rd bit pattern + +-4096-ulp neighbourhoods of the switch points in quick) and compared on the float lattice with the correctly rounded value: the "
       "float64 libm value rounded once, re-judged by the mp oracle whenever it lies near a float32 rounding boundary or the distance reaches the target; float64 "
-      "and hypot pairs (|x|=|y|, ratios around 2^+-p, specials) are judged by the mp oracle directly. NaN domain and limits at 0/inf are part of the same comparison; "
+      "and hypot pairs (|x|=|y|, ratios around 2^+-p, specials) are judged by the mp oracle directly; float64 unary functions are in addition swept in bulk (log-uniform "
+      "2^-70..2^70, the full exponent range, and t(1 +- 2^-j u) around 14 thresholds for every j < p) with the long double libm as tier 1 and the oracle for every doubtful point; "
+      "zero results of absolute / square must have a clear sign bit. NaN domain and limits at 0/inf are part of the same comparison; "
       "the <1e-5 rate claim is an exact count where enumerated and a Chernoff-bounded binomial test (alpha=1e-6) elsewhere.",
       "Trusted: numpy float64 libm within 1 ULP(float64) for tier 1 (all doubtful cases re-judged), mpmath real functions under Ziv's two-precision agreement, vf.graph.interp_np.",
       "DESIGN.md section 3 C02")
